@@ -953,6 +953,16 @@ class Interp:
         return self.getattr(base, n.attr, n)
 
     def getattr(self, base, attr, node=None):
+        if isinstance(base, Obj) and base.cls == "super-proxy":
+            slf = base.fields["self"]
+            mro = self.V.mro(slf.cls)
+            quals = [c.qual for c in mro]
+            start = quals.index(base.fields["after"]) + 1 if base.fields["after"] in quals else 0
+            for ci in mro[start:]:
+                if attr in ci.methods:
+                    fn = ci.methods[attr]
+                    return FuncRef(f"{ci.qual}.{fn.name}", fn, ci.module, bound_self=slf, cls=ci)
+            raise Unsupported(f"super().{attr} not found")
         if isinstance(base, Obj):
             if attr in base.fields:
                 v = base.fields[attr]
